@@ -313,7 +313,7 @@ func (c *Ctx) c04AllSets() {
 	c.freshParsedLineRule("R10")
 	r.Rule("R12", "the lock that guards a handler set is the set's own, never a copy: no function of package client receives or copies by value a struct that contains a sync.Mutex or sync.RWMutex (shared with C14.R4)")
 	c.noLockCopiesRule("R12", c.clientFuncs())
-	r.Rule("R11", "registering or removing a handler takes no lock but the handler set's own: in everything Handle, HandleBG, HandleFunc and a Remover's Remove reach by plain calls, the only lock acquired is the set's (the teardown holds the connection mutex while it waits for a running handler, so a registration that touched it from inside a handler would deadlock the disconnect)")
+	r.Rule("R11", "registering or removing a handler takes no lock but the handler set's own: in everything Handle, HandleBG, HandleFunc and a Remover's Remove reach by plain calls, the only lock acquired is the set's and nothing waits (no channel operation, WaitGroup.Wait, Cond.Wait or Sleep: a handler may remove itself) (the teardown holds the connection mutex while it waits for a running handler, so a registration that touched it from inside a handler would deadlock the disconnect)")
 	c.registrationLocksRule("R11")
 	cd := a.ConnDispatch
 	if !r.Anchor("R9", "Conn.dispatch", cd != nil) {
@@ -381,6 +381,32 @@ func (c *Ctx) registrationLocksRule(rule string) {
 		}
 		sort.Strings(others)
 		r.Add(rule, "registration-locks:"+c.FuncKey(f), c.Pos(f.Pos()), c.FuncKey(f), "only the handler set's own lock is taken", len(others) == 0, fmt.Sprintf("also acquires %v", others))
+		// ... and nothing else it reaches can wait: a handler may register or remove handlers - itself included
+		var waits []string
+		reach := c.Closure([]*ssa.Function{f}, func(from *ssa.Function, e Edge) bool { return e.Kind != EdgeGo })
+		for _, g := range reach.Order {
+			if !c.InModuleFn(g) {
+				continue
+			}
+			for _, op := range ChanOps(g) {
+				if op.Blocking {
+					waits = append(waits, op.Kind+" at "+c.InstrPos(op.In))
+				}
+			}
+			funcInstrs(g, func(in ssa.Instruction) {
+				if _, isGo := in.(*ssa.Go); isGo {
+					return
+				}
+				if cc := callOf(in); cc != nil {
+					switch calleeName(cc) {
+					case "(*sync.WaitGroup).Wait", "(*sync.Cond).Wait", "time.Sleep":
+						waits = append(waits, calleeName(cc)+" at "+c.InstrPos(in))
+					}
+				}
+			})
+		}
+		sort.Strings(waits)
+		r.Add(rule, "registration-waits:"+c.FuncKey(f), c.Pos(f.Pos()), c.FuncKey(f), "registration and removal never wait for anything but the set's lock (a handler that removes itself, or a sibling that depends on it, would wait for ever)", len(waits) == 0, fmt.Sprintf("waits: %v", waits))
 	}
 }
 
